@@ -91,13 +91,16 @@ pub fn result_kind(r: &Result<MessageProcessingResult, mdk_core::Error>) -> &'st
 }
 
 impl<S: MdkStorageProvider> World<S> {
-    pub fn new<F: Fn(usize) -> S>(n: usize, admin_mask: u64, retention: usize, mk: F) -> Self {
+    pub fn new<F: Fn(usize) -> S>(n: usize, admin_mask: u64, retention: usize, mk: F) -> Self { Self::new_twin(n, admin_mask, retention, false, mk) }
+    /// `twin`: the last two clients are two devices of ONE Nostr identity (same keys, separate storage, two leaves).
+    pub fn new_twin<F: Fn(usize) -> S>(n: usize, admin_mask: u64, retention: usize, twin: bool, mk: F) -> Self {
         let mut clients = vec![];
         for i in 0..n {
             let cb = Arc::new(Cb::default());
             let cfg = MdkConfig { epoch_snapshot_retention: retention, ..Default::default() };
             let mdk = MDK::builder(mk(i)).with_config(cfg).with_callback(cb.clone()).build();
-            clients.push(Client { mdk, keys: Keys::generate(), cb });
+            let keys = if twin && i == n - 1 && n >= 3 { { let c: &Client<S> = &clients[n - 2]; c.keys.clone() } } else { Keys::generate() };
+            clients.push(Client { mdk, keys, cb });
         }
         let mut admins = vec![clients[0].keys.public_key()];
         for i in 1..n { if admin_mask & (1 << i) != 0 { admins.push(clients[i].keys.public_key()); } }
@@ -202,7 +205,14 @@ impl<S: MdkStorageProvider> World<S> {
                 // OpenMLS sweeps the creator's pending proposals into the commit: members they remove (ground truth of the content)
                 let swept: Vec<usize> = self.clients[m].mdk.pending_removed_members_pubkeys(&gid).unwrap_or_default().iter()
                     .filter_map(|pk| self.clients.iter().position(|c| c.keys.public_key() == *pk)).collect();
+                let victim: Option<usize> = kind.strip_prefix("rv").and_then(|v| v.parse().ok());
+                let vpk = victim.map(|v| self.clients[v].keys.public_key());
+                // ground truth of a removal: every client (device) of the removed identity
+                let mut swept = swept;
+                if let Some(pk) = vpk { for (i, c) in self.clients.iter().enumerate() { if c.keys.public_key() == pk && !swept.contains(&i) { swept.push(i); } } }
+                let leave_refs: Vec<u64> = swept.iter().filter(|x| vpk.map(|pk| self.clients[**x].keys.public_key() != pk).unwrap_or(true)).filter_map(|x| self.leave_ev.get(x)).cloned().collect();
                 let r = catch_unwind(AssertUnwindSafe(|| match kind {
+                    k if k.starts_with("rv") => self.clients[m].mdk.remove_members(&gid, &[vpk.unwrap()]),
                     "su" => self.clients[m].mdk.self_update(&gid),
                     _ => self.clients[m].mdk.update_group_data(&gid, NostrGroupDataUpdate::new().name(format!("g{}", ev + 1))),
                 }));
@@ -211,9 +221,9 @@ impl<S: MdkStorageProvider> World<S> {
                     Ok(Ok(u)) => {
                         self.register_pending(m, ev);
                         let key = id_order_key(&u.evolution_event.id);
-                        self.events.insert(ev, EvInfo { event: u.evolution_event, kind: "commit".into(), author: m, state: st.parse().unwrap_or(9999), epoch: ep, ts, msg: None, ckind: kind.into(), refs: swept.iter().filter_map(|x| self.leave_ev.get(x)).cloned().collect(), auth: is_admin || (kind == "su" && swept.is_empty()), removes: swept.clone() });
+                        self.events.insert(ev, EvInfo { event: u.evolution_event, kind: "commit".into(), author: m, state: st.parse().unwrap_or(9999), epoch: ep, ts, msg: None, ckind: kind.into(), refs: leave_refs.clone(), auth: is_admin || (kind == "su" && swept.is_empty()), removes: swept.clone() });
                         let removes = if swept.is_empty() { "-".to_string() } else { swept.iter().map(|x| x.to_string()).collect::<Vec<_>>().join(",") };
-                        let refs: Vec<String> = swept.iter().filter_map(|x| self.leave_ev.get(x)).map(|e| e.to_string()).collect();
+                        let refs: Vec<String> = leave_refs.iter().map(|e| e.to_string()).collect();
                         let refs = if refs.is_empty() { "-".to_string() } else { refs.join(",") };
                         let facts = format!("author={m} parent={st} pepoch={ep} idkey={key} auth={} data={} removes={removes} refs={refs}", (is_admin || (kind == "su" && swept.is_empty())) as u8, if kind == "rn" { ev + 1 } else { 0 });
                         (format!("{} | {facts}", t.join(" ")), self.fingerprint(m, "ok", None, Some(ev)))
@@ -227,19 +237,36 @@ impl<S: MdkStorageProvider> World<S> {
                 use openmls::prelude::BasicCredential;
                 use openmls_basic_credential::SignatureKeyPair;
                 use tls_codec::Serialize as _;
-                let (m, victim, ev, ts) = (n(2) as usize, n(4) as usize, n(5), n(6));
+                let (m, akind, victim, ev, ts) = (n(2) as usize, t[3], n(4) as usize, n(5), n(6));
                 let st = self.sigma_of(m, None); let ep = self.mls_epoch(m);
                 let is_admin = self.admin_mask & (1 << m) != 0;
+                // OpenMLS sweeps the builder's pending proposals into the commit (by reference), exactly as for MDK's own commits
+                let swept: Vec<usize> = self.clients[m].mdk.pending_removed_members_pubkeys(&self.gid).unwrap_or_default().iter()
+                    .filter_map(|pk| self.clients.iter().position(|c| c.keys.public_key() == *pk)).collect();
                 let built = catch_unwind(AssertUnwindSafe(|| -> Option<Vec<u8>> {
                     let mdk = &self.clients[m].mdk;
                     let mut mls = mdk.load_mls_group(&self.gid).ok()??;
                     if mls.pending_commit().is_some() { return None; }
                     let leaf = mls.own_leaf()?;
                     let signer = SignatureKeyPair::read(mdk.provider.storage(), leaf.signature_key().as_slice(), mls.ciphersuite().signature_algorithm())?;
-                    let vpk = self.clients[victim].keys.public_key();
-                    let vleaf = mls.members().find(|mm| BasicCredential::try_from(mm.credential.clone()).map(|c| c.identity() == vpk.to_bytes()).unwrap_or(false))?.index;
-                    let (commit, _w, _gi) = mls.remove_members(&mdk.provider, &signer, &[vleaf]).ok()?;
-                    let bytes = commit.tls_serialize_detached().ok()?;
+                    let bytes = if akind == "rm" {
+                        let vpk = self.clients[victim].keys.public_key();
+                        let vleaf = mls.members().find(|mm| BasicCredential::try_from(mm.credential.clone()).map(|c| c.identity() == vpk.to_bytes()).unwrap_or(false))?.index;
+                        let (commit, _w, _gi) = mls.remove_members(&mdk.provider, &signer, &[vleaf]).ok()?;
+                        commit.tls_serialize_detached().ok()?
+                    } else {
+                        // GroupContextExtensions commit replacing the group-data extension: "ga" grants the author admin
+                        // rights, "gn" renames the group
+                        use mdk_core::extension::NostrGroupDataExtension;
+                        use openmls::prelude::{Extension, UnknownExtension};
+                        let cur = mls.extensions().iter().find_map(|e| match e { Extension::Unknown(t, UnknownExtension(b)) if *t == NostrGroupDataExtension::EXTENSION_TYPE => Some(b.clone()), _ => None })?;
+                        let mut gd = NostrGroupDataExtension::verif_from_bytes(&cur).ok()?;
+                        if akind == "ga" { gd.admins.insert(self.clients[m].keys.public_key()); } else { gd.name = format!("g{}", ev + 1); }
+                        let mut exts = mls.extensions().clone();
+                        exts.add_or_replace(Extension::Unknown(NostrGroupDataExtension::EXTENSION_TYPE, UnknownExtension(gd.verif_to_bytes().ok()?))).ok()?;
+                        let (commit, _w, _gi) = mls.update_group_context_extensions(&mdk.provider, exts, &signer).ok()?;
+                        commit.tls_serialize_detached().ok()?
+                    };
                     // the adversary does not keep the commit pending in its own client
                     mls.clear_pending_commit(mdk.provider.storage()).ok()?;
                     Some(bytes)
@@ -248,10 +275,13 @@ impl<S: MdkStorageProvider> World<S> {
                     Ok(Some(bytes)) => {
                         let e = self.wrap_raw(m, bytes, ts);
                         let key = id_order_key(&e.id);
-                        let swept: Vec<usize> = vec![];
-                        let _ = swept;
-                        self.events.insert(ev, EvInfo { event: e, kind: "commit".into(), author: m, state: st.parse().unwrap_or(9999), epoch: ep, ts, msg: None, ckind: "adv-rm".into(), refs: vec![], auth: is_admin, removes: vec![victim] });
-                        (format!("{} | author={m} parent={st} pepoch={ep} idkey={key} auth={} data=0 removes={victim} refs=-", t.join(" "), is_admin as u8), "ok".into())
+                        let mut removes: Vec<usize> = if akind == "rm" { vec![victim] } else { vec![] };
+                        for x in &swept { if !removes.contains(x) { removes.push(*x); } }
+                        // an inline Remove of a leaf that a pending proposal also removes: OpenMLS keeps the inline one only
+                        let refs: Vec<u64> = swept.iter().filter(|x| !(akind == "rm" && **x == victim)).filter_map(|x| self.leave_ev.get(x)).cloned().collect();
+                        self.events.insert(ev, EvInfo { event: e, kind: "commit".into(), author: m, state: st.parse().unwrap_or(9999), epoch: ep, ts, msg: None, ckind: format!("adv-{akind}"), refs: refs.clone(), auth: is_admin, removes: removes.clone() });
+                        let j = |v: Vec<String>| if v.is_empty() { "-".to_string() } else { v.join(",") };
+                        (format!("{} | author={m} parent={st} pepoch={ep} idkey={key} auth={} data={} removes={} refs={}", t.join(" "), is_admin as u8, if akind == "gn" { ev + 1 } else { 0 }, j(removes.iter().map(|x| x.to_string()).collect()), j(refs.iter().map(|x| x.to_string()).collect())), "ok".into())
                     }
                     _ => (format!("{} | refused=1", t.join(" ")), "ok".into()),
                 }
@@ -347,6 +377,7 @@ impl<S: MdkStorageProvider> World<S> {
                 match r {
                     Ok(r) => {
                         let k = result_kind(&r);
+                        if std::env::var("VERIF_SHOW_ERR").is_ok() { for r in crate::logcap::drain() { eprintln!("   log: {}", r.text().chars().take(300).collect::<String>()); } eprintln!("DELIVER {m} {ev}: {:?}", r.as_ref().map(|x| format!("{x:?}").chars().take(160).collect::<String>())); }
                         let mut line = t.join(" ");
                         // an admin auto-committing a leave proposal produces a new commit event, numbered 1000 + 8*ev + member
                         if let Ok(MessageProcessingResult::Proposal(u)) = &r {
